@@ -991,6 +991,16 @@ func (ex *Exec) execInstrs(fr *Frame, b *ssa.BasicBlock, i int, st *State) {
 			} else {
 				ex.errorf("extract from non-tuple in %s", fnName(fr.fn))
 			}
+		case *ssa.Index:
+			// s[i] on a string value: one byte, index within the length
+			if b, ok := x.X.Type().Underlying().(*types.Basic); ok && b.Info()&types.IsString != 0 {
+				sv := ex.val(fr, st, x.X)
+				idx := ex.val(fr, st, x.Index).T
+				ex.check(fr, st, "bounds", "", x.Pos(), and(le("0", idx), lt(idx, "(strlen "+sv.T+")")))
+				st.vals[x] = SVal{T: "(byteAt " + sv.T + " " + idx + ")"}
+			} else {
+				ex.errorf("%s: unsupported instruction %T (%s)", fnName(fr.fn), in, in)
+			}
 		case *ssa.Lookup:
 			ex.doLookup(fr, st, x)
 		case *ssa.MapUpdate:
